@@ -130,7 +130,7 @@ def showArg : Arg → String
 
 /-- requests:
   `default`                                               → `<cpu>:<mem>` of `ExBudget::default()`
-  `loop <legacy|fixed> <cms> <p1|nop1|p1fail> <cpu|-> <mem|-> <outcome>*`
+  `loop <judge:legacy|fixed> <budget:legacy|fixed> <cms> <p1|nop1|p1fail> <cpu|-> <mem|-> <outcome>*`
         (`<cms>` = `none` | three of `p`/`n` for v1 v2 v3; budget `- -` = `initial_budget: None`;
          `nored` as the only outcome = no redeemers field)
         → `ok <cpu>:<mem>,…` | `err phase-one` | `err <index> <class>`
@@ -141,7 +141,7 @@ def showArg : Arg → String
 def handle (args : List String) : String :=
   match args with
   | ["default"] => showBudget ExBudget.default
-  | "loop" :: crit :: cms :: p1 :: cpu :: mem :: outs =>
+  | "loop" :: crit :: critB :: cms :: p1 :: cpu :: mem :: outs =>
     let budget : Option (Option ExBudget) :=
       if cpu == "-" && mem == "-" then some none
       else match cpu.toInt?, mem.toInt? with
@@ -155,13 +155,13 @@ def handle (args : List String) : String :=
       | "nop1" => some (false, .ok ())
       | "p1fail" => some (true, .error .missingRequiredScript)
       | _ => none
-    match parseCrit crit, parseCms cms, budget, reds, phase with
-    | some crit, some cms, some budget, some reds, some (rp, p1) =>
-      match evalPhaseTwo (evalRedeemer crit (stages cms)) ⟨reds, rp, p1, budget⟩ with
+    match parseCrit crit, parseCrit critB, parseCms cms, budget, reds, phase with
+    | some crit, some critB, some cms, some budget, some reds, some (rp, p1) =>
+      match evalPhaseTwo (evalRedeemer crit critB (stages cms)) ⟨reds, rp, p1, budget⟩ with
       | .ok us => "ok " ++ ",".intercalate ((units us).map showBudget)
       | .error (.phaseOne _) => "err phase-one"
       | .error (.redeemer i e) => "err " ++ toString i ++ " " ++ errClass e
-    | _, _, _, _, _ => "bad-request"
+    | _, _, _, _, _, _ => "bad-request"
   | ["failed", lang, allow, kind] =>
     match parseLang lang, parseKind kind with
     | some lang, some k =>
